@@ -310,12 +310,8 @@ Proof.
         split; [cbn; rewrite (scalar_eval_ok _ _ Ht Hf); reflexivity|].
         apply (RT_node _ _ _ _ _ R). rewrite N. split; [|discriminate].
         rewrite spec_eq_unfold. cbn. rewrite spec_eq_basic. apply leaf_eq_norm0. exact Ht.
-      * assert (Ht1 : has_type (r_env r) (TP el) (VPtr l x') = true) by (rewrite has_type_unfold; cbn; exact Ht).
-        assert (Hf1 : finite (r_env r) (TP el) (VPtr l x') = true) by (rewrite finite_unfold; cbn; exact Hf).
-        destruct (Px (r_env r) (TP el) n He' Hx' Ht1 Hf1) as (g & v' & n' & G & E & Rt).
-        rewrite G. exists (Some g), v', n'. split; [reflexivity|].
-        split; [rewrite <- (geval_node _ _ _ g n R), N; exact E|].
-        apply (RT_node _ _ _ _ _ R). rewrite N. exact Rt.
+      * destruct (Px e ft n He Hx Ht0 Hf0) as (g & v' & n' & G & E & Rt).
+        rewrite G. exists (Some g), v', n'. repeat split; try assumption; apply Rt.
   - (* slice *)
     destruct x as [| | | | | | | |l es sp| | | |]; try discriminate.
     + exists None, VNilS, n. split; [reflexivity|]. split; [unfold nil_of; rewrite R, N; split; reflexivity|].
